@@ -70,6 +70,13 @@ def positions(src, n, rng):
 
 # ---------------------------------------------------------------- fresh answers (fork per case)
 def _fresh_child(case, wfd):
+    if case.get('perturb'):
+        # forked children share the parent's memory layout: shift object addresses
+        import random
+        rnd = random.Random(case['perturb'])
+        _junk = [object() for _ in range(rnd.randrange(1000, 200000))]   # noqa: kept alive on purpose
+        _junk2 = [[] for _ in range(rnd.randrange(10, 5000))]
+        del _junk2
     import jedi
     import parso.cache
     assert not any(parso.cache.parser_cache.values()), 'base process is not cache-free'
